@@ -13,7 +13,8 @@ from . import core, syntax, progs, lexgen, c01, semerr
 # token runs that are never a (prefix of a) valid statement; the second group is not bracket-balanced: a stray ')' or ']'
 # is itself the malformed statement (a stray '}' would legitimately close the enclosing block, so it is not used)
 MENU = ["$a = ;", "1 2 ;", "$x = = 3;", "foo( , );", "$y->;", "+ ;", "if ();",
-        ")", "]", "$q = 2 3;", "echo 1 2;", "g(1 2);", "=> 1;", "$r = 1 + -$s ** 2 3;", "new;", "$t[1 2];", ") ]"]
+        ")", "]", "$q = 2 3;", "echo 1 2;", "g(1 2);", "=> 1;", "$r = 1 + -$s ** 2 3;", "new;", "$t[1 2];", ") ]",
+        "$q = 2 /* note */ 3;", "echo 1 // c\n 2;", "g(1 /** d */ $z);", "$u = 1 # h\n $w;", "/* lead */ ) ;"]
 
 
 def wrap(kind, stmts):
